@@ -21,10 +21,11 @@ Trace == Doc.events
 
 VARIABLES tree, values, en, ev, M, hist,    \* the ArrayMap model
           D,                                 \* dict cache model
-          l, bad
+          Last,                              \* last value stored per arraymap key (never forgotten)
+          l, bad, notes
 AM == INSTANCE ArrayMap WITH L <- Hdr.L, B <- Hdr.B, InitSize <- Hdr.init, MaxSize <- Hdr.max,
                              Vals <- {}, Depth <- 0
-vars == <<tree, values, en, ev, M, hist, D, l, bad>>
+vars == <<tree, values, en, ev, M, hist, D, Last, l, bad, notes>>
 
 Abs(x) == IF x < 0 THEN -x ELSE x
 Near(a, b) == Abs(a - b) <= 1
@@ -32,34 +33,52 @@ Key(e) == [i \in 1..Len(e.key) |-> e.key[i]]
 
 Init == /\ AM!Init
         /\ D = [k \in {} |-> 0]
+        /\ Last = [k \in {} |-> 0]
         /\ l = 1
         /\ bad = 0
+        /\ notes = 0
 
-(* verdict and next model state for one event *)
+(* Deciding clauses are the ones the property states: a cache may forget (miss) at any time but never lies -   *)
+(* a served value is the last value stored for that key and equals the fresh value; stored and carried values  *)
+(* equal the fresh value.  Agreement with the FAITHFUL model (same hits and misses, same free slots and array  *)
+(* lengths, i.e. growth and flush exactly where arraymap.py does them) is reported as a note, not a rejection: *)
+(* another growth / eviction policy would still satisfy C09.                                                    *)
 GetVerdict(e) ==
+  IF e.miss THEN "ok"
+  ELSE IF Key(e) \notin DOMAIN Last THEN "GetReturnsLastStored"
+  ELSE IF Last[Key(e)] # e.ret THEN "GetReturnsLastStored"
+  ELSE IF ~Near(e.ret, e.fresh) THEN "ServedValueIsFresh"
+  ELSE "ok"
+GetNote(e) ==
   LET r == AM!Get(Key(e))
   IN  IF e.miss /\ r # AM!NaN THEN "GetMissButModelHit"
       ELSE IF ~e.miss /\ r = AM!NaN THEN "GetHitButModelMiss"
-      ELSE IF ~e.miss /\ r # e.ret THEN "GetReturnsLastStored"
-      ELSE IF ~e.miss /\ ~Near(e.ret, e.fresh) THEN "ServedValueIsFresh"
-      ELSE "ok"
+      ELSE "none"
 
-SetVerdict(e, r) ==
-  IF ~Near(e.v, e.fresh) THEN "StoredValueIsFresh"
-  ELSE IF r.en # e.en \/ r.ev # e.ev THEN "SetFreeSlots"
+SetVerdict(e, r) == IF ~Near(e.v, e.fresh) THEN "StoredValueIsFresh" ELSE "ok"
+SetNote(e, r) ==
+  IF r.en # e.en \/ r.ev # e.ev THEN "SetFreeSlots"
   ELSE IF Len(r.tree) # e.lt \/ Len(r.values) # e.lv THEN "SetArrayLengths"
-  ELSE "ok"
+  ELSE "none"
 
+(* dict caches: a hit on a key the model holds must return the stored value; any served / stored value is fresh *)
 DictVerdict(e) ==
   LET k == Key(e)
-  IN  IF k \in DOMAIN D
-      THEN IF ~e.hit THEN "DictMissButModelHit"
-           ELSE IF D[k] # e.ret THEN "DictReturnsStored"
+  IN  IF e.hit
+      THEN IF k \in DOMAIN D /\ D[k] # e.ret THEN "DictReturnsStored"
            ELSE IF ~Near(e.ret, e.fresh) THEN "ServedValueIsFresh"
            ELSE "ok"
-      ELSE IF e.hit THEN "DictHitButModelMiss"
-           ELSE IF ~Near(e.ret, e.fresh) THEN "StoredValueIsFresh"
-           ELSE "ok"
+      ELSE IF ~Near(e.ret, e.fresh) THEN "StoredValueIsFresh" ELSE "ok"
+DictNote(e) ==
+  IF e.hit /\ Key(e) \notin DOMAIN D THEN "DictHitButModelMiss"
+  ELSE IF ~e.hit /\ Key(e) \in DOMAIN D THEN "DictMissButModelHit"
+  ELSE "none"
+
+Note(e) ==
+  CASE e.op = "get" -> GetNote(e)
+    [] e.op = "set" -> SetNote(e, AM!SetResult(Key(e), e.v))
+    [] e.op = "dget" -> DictNote(e)
+    [] OTHER -> "none"
 
 Verdict(e) ==
   CASE e.op = "get"     -> GetVerdict(e)
@@ -72,8 +91,12 @@ Next ==
   /\ l <= Len(Trace)
   /\ LET e == Trace[l]
          v == Verdict(e)
+         nt == Note(e)
      IN  /\ IF v = "ok" THEN TRUE ELSE PrintT(<<"@@J", ToJson([reject |-> l, clause |-> v])>>)
+         /\ IF nt = "none" \/ notes >= 20 THEN TRUE ELSE PrintT(<<"@@J", ToJson([note |-> l, what |-> nt])>>)
          /\ bad' = IF v = "ok" THEN bad ELSE bad + 1
+         /\ notes' = IF nt = "none" THEN notes ELSE notes + 1
+         /\ Last' = IF e.op = "set" THEN [k \in (DOMAIN Last) \cup {Key(e)} |-> IF k = Key(e) THEN e.v ELSE Last[k]] ELSE Last
          /\ IF e.op = "set"
             THEN LET r == AM!SetResult(Key(e), e.v)
                  IN  /\ tree' = r.tree /\ values' = r.values /\ en' = r.en /\ ev' = r.ev
@@ -83,7 +106,7 @@ Next ==
                      /\ hist' = IF r.flush = "none" THEN hist ELSE Append(hist, l)   \* lines at which a flush happened
                      /\ UNCHANGED D
             ELSE IF e.op = "dget"
-            THEN /\ D' = IF Key(e) \in DOMAIN D THEN D
+            THEN /\ D' = IF e.hit /\ Key(e) \in DOMAIN D THEN D
                          ELSE [k \in (DOMAIN D) \cup {Key(e)} |-> IF k = Key(e) THEN e.ret ELSE D[k]]
                  /\ UNCHANGED <<tree, values, en, ev, M, hist>>
             ELSE UNCHANGED <<tree, values, en, ev, M, hist, D>>
@@ -95,5 +118,5 @@ Refines == \A k \in DOMAIN M : AM!Get(k) = M[k]
 MissSentinelIsNaN == AM!MissSentinelIsNaN
 InBounds == AM!InBounds
 Consumed == (l = Len(Trace) + 1) =>
-   PrintT(<<"@@J", ToJson([consumed |-> l - 1, rejected |-> bad, flushes |-> Len(hist), dict_entries |-> Cardinality(DOMAIN D)])>>)
+   PrintT(<<"@@J", ToJson([consumed |-> l - 1, rejected |-> bad, model_divergences |-> notes, flushes |-> Len(hist), dict_entries |-> Cardinality(DOMAIN D)])>>)
 =============================================================================
